@@ -81,6 +81,19 @@ def near_equal_large(rng, count):
     return out
 
 
+def dominant_family(rng, count, k=2):
+    """one dominant item of about 2e9 next to 3-6 small items: every sum difference is about 2e9 and the candidates differ by a few units, i.e. by a
+    relative 1e-9 (math.isclose's default tolerance); the total stays below 2^31 so that TLC's oracles can still compute with it"""
+    out = []
+    for i in range(count):
+        D = rng.choice([2100000000, 2100000000, 2000000100, 1500000000])   # (D - small) * 1e-9 >= 2: differences two units apart count as "close"
+        n = rng.randint(3, 6)
+        out.append({"vals": [D] + [rng.randint(0, 9) for _ in range(n)], "k": k})
+        if i % 3 == 0:
+            rng.shuffle(out[-1]["vals"])
+    return out
+
+
 def witness_family(rng, count):
     """instances beyond the exhaustive TLA+ oracle (8-11 items, 3-5 bins) for the witness-judged half of C02: the sizes at which the recursive /
     sequential partitioners' branches, windows and incumbent updates do real work (a 5-bin defect of rnp showed on about 1 in 1000 such inputs)"""
@@ -296,13 +309,14 @@ def window_tight_families(rng, count):
     return out
 
 
-def near_miss_families(rng, count, cover=True):
+def near_miss_families(rng, count, cover=True, giga=False):
     """large bin sizes with running sums that land ONE unit (a relative 1e-6) below / above the bin size: exposes floating-point tolerances"""
     out = []
     for i in range(count):
-        C = rng.choice([100000, 1000000, 1 << 20, 999983])
-        d = rng.choice([1, 1, 2, 5])
         kind = i % 4
+        # 1e5..1e6: one unit is a relative 1e-5..1e-6 (numpy's isclose); giga: 1e9, where one unit is a relative 1e-9 (math.isclose) - only for judges whose integer forms stay below 2^31 (no 3*v)
+        C = rng.choice([100000, 1000000, 1 << 20, 999983] + ([10 ** 9, 10 ** 9] if giga else []))
+        d = rng.choice([1, 1, 2, 5])
         if kind == 0:
             vals = [C - d] + [rng.randint(1, 3) for _ in range(rng.randint(0, 3))]
         elif kind == 1:
